@@ -165,6 +165,8 @@ def scn_simple():
     ns["bmap"] = {"X": "extend", "Y": "fill"}
     ns["fmap"] = {"X": 1.0, "Y": 2.0}
     ns["tomap"] = {"X": "left", "Y": "left"}
+    ns["bmap2"] = {"X": "fill", "Y": "extend"}  # same axes as bmap, other values
+    ns["fmap2"] = {"X": -4.0, "Y": 0.0}
     ns["bw"] = {"X": (1, 2), "Y": (0, 1)}
     ns["bw1"] = {"X": (1, 0)}
     ns["axl"] = ["X", "Y"]
@@ -174,6 +176,7 @@ def scn_simple():
     ops = collections.OrderedDict()
     ops["diff_x"] = lambda n: n["g"].diff(n["c"], "X", to="left")
     ops["interp_xy_maps"] = lambda n: n["g"].interp(n["c"], n["axl"], to=n["tomap"], boundary=n["bmap"], fill_value=n["fmap"])
+    ops["interp_xy_maps2"] = lambda n: n["g"].interp(n["c"], n["axl"], to=n["tomap"], boundary=n["bmap2"], fill_value=n["fmap2"])
     ops["min_y_bmap"] = lambda n: n["g"].min(n["c"], "Y", boundary=n["bmap"])
     ops["min_y_neg"] = lambda n: n["g"].min(n["cneg"], "Y", boundary=n["bmap"])
     ops["max_x_outer"] = lambda n: n["g"].max(n["c"], "X", to="outer", boundary="fill", fill_value=n["fmap"])
